@@ -66,12 +66,14 @@ package engine
 //@ pred envVals(st ProcessState) := values(st.environment)
 
 //@ func executeExpression [C11 C09]
+//@   nopanic [C09]
 //@   requires s != nil
 //@   requires state.environment != nil
 //@   requires wt(*s, envDom(state), envVals(state))
 //@   ensures value: result.currentValue == evalv(*s, old(envDom(state)), old(envVals(state)))
 //@   ensures frame: result.environment == state.environment && result.status == state.status
 //@ func executeBinaryExpr [C11 C09]
+//@   nopanic [C09]
 //@   requires s != nil
 //@   requires state.environment != nil
 //@   requires wt(box(ast.AstProcessBinaryExpression, *s), envDom(state), envVals(state))
@@ -79,6 +81,7 @@ package engine
 //@   ensures value: result.currentValue == evalv(box(ast.AstProcessBinaryExpression, *s), old(envDom(state)), old(envVals(state)))
 //@   ensures frame: result.environment == state.environment && result.status == state.status
 //@ func executeUnaryExpression [C11 C09]
+//@   nopanic [C09]
 //@   requires s != nil
 //@   requires state.environment != nil
 //@   requires wt(box(ast.AstProcessUnaryExpression, *s), envDom(state), envVals(state))
@@ -86,18 +89,22 @@ package engine
 //@   ensures value: result.currentValue == evalv(box(ast.AstProcessUnaryExpression, *s), old(envDom(state)), old(envVals(state)))
 //@   ensures frame: result.environment == state.environment && result.status == state.status
 //@ func executeString [C11 C09]
+//@   nopanic [C09]
 //@   requires s != nil
 //@   ensures value: result.currentValue == evalv(box(ast.AstProcessString, *s), old(envDom(state)), old(envVals(state)))
 //@   ensures frame: result.environment == state.environment && result.status == state.status
 //@ func executeNumber [C11 C09]
+//@   nopanic [C09]
 //@   requires s != nil
 //@   ensures value: result.currentValue == evalv(box(ast.AstProcessNumber, *s), old(envDom(state)), old(envVals(state)))
 //@   ensures frame: result.environment == state.environment && result.status == state.status
 //@ func executeBoolean [C11 C09]
+//@   nopanic [C09]
 //@   requires s != nil
 //@   ensures value: result.currentValue == evalv(box(ast.AstProcessBoolean, *s), old(envDom(state)), old(envVals(state)))
 //@   ensures frame: result.environment == state.environment && result.status == state.status
 //@ func executeVariable [C11 C09]
+//@   nopanic [C09]
 //@   requires s != nil
 //@   requires state.environment != nil
 //@   ensures value: result.currentValue == evalv(box(ast.AstProcessVariable, *s), old(envDom(state)), old(envVals(state)))
